@@ -21,7 +21,7 @@ STUB = ["user code (generated)", "stdout (sink)"]
 ASSUMPTIONS = ["statement shapes are those C01 validates; list elements reached through a list index "
                "are not referenced (the library raises NotImplementedError for them)"]
 REQUIRED_NONZERO = {"*": ["judged_calls", "probes", "probe_reject_expected", "probe_accept_expected",
-                          "sibling_trees", "nonrand_sub_assigns"]}
+                          "sibling_trees", "nonrand_sub_assigns", "list_replacements"]}
 
 
 def budget(tier):
@@ -97,10 +97,15 @@ def generate(seed, tier):
     nr_sub = [(p_, f) for (p_, f, r) in all_paths(P, top) if not r and len(p_) > 1 and f["k"] == "s"]
     own = progs.fields_with_paths(P.cls(top))[0]
     go = progs.Gen(orng, g.cfg)
+    top_lo = [f for f in P.fields(top) if f["k"] == "lo"]
     for _ in range(orng.randint(6, 16 if tier == "quick" else 40)):
         p = orng.randrange(n_parties)
         r = orng.random()
-        if r < 0.5:
+        if top_lo and r < 0.1:
+            # the list gets a new set of element objects (same length: constraints by index stay valid)
+            f = orng.choice(top_lo)
+            ops.append({"op": "lo_replace", "p": p, "path": [f["n"]], "cls": f["c"], "n": f["sz"]})
+        elif r < 0.5:
             ops.append({"op": "randomize", "p": p})
         elif r < 0.7 and own:
             ops.append({"op": "rw", "p": p, "inline": [progs.simple_stmt(orng, own)]})
@@ -158,6 +163,8 @@ def execute(rec):
         out = w.apply(op)
         if kind == "assign" and op.get("nrsub"):
             stats["nonrand_sub_assigns"] += 1
+        if kind == "lo_replace":
+            stats["list_replacements"] = stats.get("list_replacements", 0) + 1
         if kind not in ("randomize", "rw"):
             obs.append((oi, kind, out["st"]))
             continue
